@@ -6,6 +6,7 @@ CONSTANT GrowModes = {TRUE, FALSE}
 CONSTANT FloorAhead = 2
 CONSTANT MaxPend = 1
 CONSTANT Fine = TRUE
+CONSTANT Acts = {"Next", "GTLast", "GTBatch", "GTBegin", "GiveBack", "Idle", "Stop"}
 SPECIFICATION Spec
 VIEW view
 INVARIANT Unique
